@@ -1,9 +1,11 @@
 (* C13_Corr.v — correspondence vocabulary for C13.  A case is an initial cluster and a
    stream of documents together with what the implementation did on the JSON rendering
    and on the YAML rendering of that stream, and whether both renderings parsed to the
-   same operations.  Evaluated by vm_compute in the generated cases files. *)
+   same operations (class KRun).  A second class, KSession, is a session of several
+   executions through one ObjectPatcher on a cluster that serves kinds in several API
+   groups (C13_GModel / C13_GSpec).  Evaluated by vm_compute in the generated cases files. *)
 From Coq Require Import String.
-From Verif Require Import Common Json C13_Model C13_Spec.
+From Verif Require Import Common Json C13_Model C13_Spec C13_GModel C13_GSpec.
 
 Record run_obs := mkRun {
   ro_parse_ok : bool;
@@ -21,7 +23,7 @@ Record op_run := mkOpRun {
   or_cluster : cluster
 }.
 
-Record case := mkCase {
+Record run_case := mkCase {
   k_initial    : cluster;      (* full objects, sorted by key *)
   k_docs       : list doc;
   k_json       : run_obs;
@@ -55,7 +57,7 @@ Definition verb_eqb (a b : verb) : bool :=
 Definition call_eqb (a b : call) : bool :=
   verb_eqb (fst (fst a)) (fst (fst b)) && bytes_eqb (snd (fst a)) (snd (fst b)) && bytes_eqb (snd a) (snd b).
 
-Definition model_obs (c : case) : run_obs :=
+Definition model_obs_run (c : run_case) : run_obs :=
   let r := handle_run (k_initial c) (k_docs c) in
   mkRun (r_parse_ok r) (r_calls r) (r_errors r) (view project (r_cluster r)) false.
 
@@ -71,7 +73,7 @@ Definition run_eqb (a b : run_obs) : bool :=
 Definition status_eqb (a b : op_status) : bool :=
   match a, b with OSuccess, OSuccess | OFail, OFail | OOther, OOther => true | _, _ => false end.
 
-Definition operator_agrees (c : case) : bool :=
+Definition operator_agrees (c : run_case) : bool :=
   match k_operator c with
   | None => true
   | Some o =>
@@ -83,15 +85,15 @@ Definition operator_agrees (c : case) : bool :=
 
 (* the model agrees with both renderings and with the operator run, and both renderings
    parsed to identical operations *)
-Definition agrees (c : case) : bool :=
-  run_eqb (model_obs c) (k_json c) && run_eqb (model_obs c) (k_yaml c) && k_same_ops c && k_same_typed c
+Definition agrees_run (c : run_case) : bool :=
+  run_eqb (model_obs_run c) (k_json c) && run_eqb (model_obs_run c) (k_yaml c) && k_same_ops c && k_same_typed c
   && operator_agrees c.
 
 Definition outcome_of (r : run_obs) : outcome :=
   mkOutcome (ro_parse_ok r) (ro_cluster r) (ro_calls r) (ro_errors r).
 
 (* the observed clusters are already projected; [project] is idempotent *)
-Definition spec_ok (c : case) : bool :=
+Definition spec_ok_run (c : run_case) : bool :=
   negb (ro_crash (k_json c)) && negb (ro_crash (k_yaml c))
   && P_run project (k_initial c) (k_docs c) (outcome_of (k_json c))
   && P_run project (k_initial c) (k_docs c) (outcome_of (k_yaml c))
@@ -104,6 +106,73 @@ Definition spec_ok (c : case) : bool :=
        | st => P_hook_run project (k_initial c) (k_docs c) (status_eqb st OFail) (or_cluster o) (or_calls o)
        end
      end.
+
+(* ---------- sessions on a cluster that serves kinds in several groups ---------- *)
+
+(* a session: the cluster's discovery (groupVersion, kinds; in discovery order), the
+   initial cluster (keys "groupVersion|Kind/namespace/name"), one list of documents per
+   execution, and per rendering what every execution showed - all executions of one
+   rendering through ONE ObjectPatcher against one cluster *)
+Record session_case := mkSession {
+  s_disc       : discovery;
+  s_initial    : cluster;
+  s_files      : list (list gdoc);
+  s_json       : list run_obs;
+  s_yaml       : list run_obs;
+  s_same_ops   : bool;
+  s_same_typed : bool;
+  s_operator   : option (list op_run)  (* sampled: the executions as hook runs of one operator *)
+}.
+
+Definition obs_of_outcome (r : outcome) : run_obs :=
+  mkRun (r_parse_ok r) (r_calls r) (r_errors r) (view project (r_cluster r)) false.
+
+Definition model_obs_session (c : session_case) : list run_obs :=
+  map obs_of_outcome (ghandle_runs (s_disc c) (s_initial c) (s_files c)).
+
+Definition op_run_agrees (o : op_run) (r : outcome) : bool :=
+  status_eqb (or_status o) (if failed r then OFail else OSuccess)
+  && list_eqb call_eqb (or_calls o) (r_calls r)
+  && cluster_eqb (or_cluster o) (view project (r_cluster r)).
+
+Fixpoint all2 {A B} (f : A -> B -> bool) (a : list A) (b : list B) : bool :=
+  match a, b with
+  | [], [] => true
+  | x :: a', y :: b' => f x y && all2 f a' b'
+  | _, _ => false
+  end.
+
+Definition agrees_session (c : session_case) : bool :=
+  list_eqb run_eqb (model_obs_session c) (s_json c) && list_eqb run_eqb (model_obs_session c) (s_yaml c)
+  && s_same_ops c && s_same_typed c
+  && match s_operator c with
+     | None => true
+     | Some os => all2 op_run_agrees os (ghandle_runs (s_disc c) (s_initial c) (s_files c))
+     end.
+
+Definition no_crash (rs : list run_obs) : bool := forallb (fun r => negb (ro_crash r)) rs.
+
+Definition spec_ok_session (c : session_case) : bool :=
+  no_crash (s_json c) && no_crash (s_yaml c)
+  && P_gsession project (s_disc c) (s_initial c) (s_files c) (map outcome_of (s_json c))
+  && P_gsession project (s_disc c) (s_initial c) (s_files c) (map outcome_of (s_yaml c))
+  && s_same_ops c
+  && match s_operator c with
+     | None => true
+     | Some os =>
+       forallb (fun o => negb (status_eqb (or_status o) OOther)) os
+       && P_ghook_session project (s_disc c) (s_initial c) (s_files c)
+            (map (fun o => (status_eqb (or_status o) OFail, or_cluster o, or_calls o)) os)
+     end.
+
+(* ---------- the two case classes ---------- *)
+
+Inductive case := KRun (c : run_case) | KSession (c : session_case).
+
+Definition model_obs (c : case) : list run_obs :=
+  match c with KRun r => [model_obs_run r] | KSession s => model_obs_session s end.
+Definition agrees (c : case) : bool := match c with KRun r => agrees_run r | KSession s => agrees_session s end.
+Definition spec_ok (c : case) : bool := match c with KRun r => spec_ok_run r | KSession s => spec_ok_session s end.
 
 Definition mismatches (cs : list case) : list N := indices_where (fun c => negb (agrees c)) cs.
 Definition spec_violations (cs : list case) : list N := indices_where (fun c => negb (spec_ok c)) cs.
